@@ -493,6 +493,10 @@ func TestCheck(t *testing.T) {
 	// stateless / independent entry points run in parallel; entries that swap process-wide seams run one at a time afterwards
 	var wg sync.WaitGroup
 	sem := make(chan struct{}, 12)
+	if part("v2") {
+		wg.Add(1)
+		go func() { defer wg.Done(); v2Protocol(h) }()
+	}
 	for _, e := range entries {
 		if e.serial {
 			continue
@@ -512,9 +516,6 @@ func TestCheck(t *testing.T) {
 			st := h.st(e.name)
 			e.gen(h, e, func(in input) { h.one(e, st, in) })
 		}
-	}
-	if part("v2") {
-		v2Protocol(h)
 	}
 	if part("http") {
 		httpNode(h)
